@@ -49,7 +49,21 @@ def run(tier):
         sp = os.path.join(wd, f"scen_{i}.ndjson")
         vlib.write_ndjson(sp, [sc])
         jobs.append(["c20", sp, os.path.join(wd, f"trace_{i}.ndjson")])
-    vlib.run_vh_parallel(jobs, timeout=6 * 3600)
+    # verifier-gadget half: the repository's own verifier circuit (K = 18) rebuilt from the public API
+    gscen = []
+    n_pi = 55
+    edit_sets = [[0, 54], [20, 37]] if tier == "quick" else [[i, i + 1, i + 2] for i in range(0, n_pi - 2, 3)]
+    corrupt_sets = [[-5], [-40, -70]] if tier == "quick" else [[-(5 + 33 * i)] for i in range(len(edit_sets))]
+    for i, es in enumerate(edit_sets):
+        gscen.append({"seed": rng.randrange(1, 1000), "edit_positions": es, "corrupt_bytes": [c % 100000 for c in corrupt_sets[i % len(corrupt_sets)]]})
+    gjobs = []
+    for i, sc in enumerate(gscen):
+        sp = os.path.join(wd, f"gscen_{i}.ndjson")
+        vlib.write_ndjson(sp, [sc])
+        gjobs.append(["c20g", sp, os.path.join(wd, f"gtrace_{i}.ndjson")])
+    vlib.run_vh_parallel(jobs + gjobs[:8], timeout=6 * 3600)
+    for i in range(8, len(gjobs), 6):
+        vlib.run_vh_parallel(gjobs[i:i + 6], timeout=6 * 3600)
     good = 0
     allrows = []
     for j, sc in zip(jobs, scen):
@@ -70,6 +84,21 @@ def run(tier):
                           {"scenario": sc, "event": {k: v for k, v in e.items() if k not in ("prover", "verifier")}})
             if e["ev"] == "Agg":
                 break        # nothing else can be judged for this aggregation
+    grows = []
+    for j, sc in zip(gjobs, gscen):
+        rows = vlib.strip_nulls(vlib.read_ndjson(j[2])) if hasattr(vlib, "strip_nulls") else vlib.read_ndjson(j[2])
+        grows += rows
+        remaining = list(rows)
+        for _ in range(12):
+            tp = os.path.join(wd, "gval.ndjson")
+            vlib.write_ndjson(tp, remaining)
+            acc, line, _ = vlib.validate_trace(tp, "Agg_Trace.tla", "Agg_Trace.cfg", "C20", timeout=3600)
+            if acc:
+                good += len(remaining)
+                break
+            e = remaining.pop(line - 1)
+            rep.violation({"ev": e["ev"], "what": e.get("what") or e.get("case"), "status": (e.get("status") or e.get("in_circuit") or "")[:10]},
+                          f"verifier gadget: {json.dumps(e)[:300]}", {"scenario": sc, "event": e, "half": "verifier_gadget"})
     aggs = [r for r in allrows if r["ev"] == "Agg"]
     tam = [r for r in allrows if r["ev"] == "AggTamper"]
     if not aggs:
@@ -81,6 +110,10 @@ def run(tier):
                           "elements": sum(1 for e in a["verifier"] if e["op"] == "read")} for a in aggs],
         "corruptions": len(tam), "corruptions_accepted": sum(1 for t in tam if t["verdict"] == "ok" and not (t.get("how") == "append_byte" and t.get("trailing"))),
         "instance_edits": sum(1 for r in allrows if r["ev"] == "AggInstance"),
+        "verifier_gadget": {"honest_runs": sum(1 for r in grows if r["ev"] == "Gadget"),
+                            "instance_edits": sum(1 for r in grows if r["ev"] == "GadgetEdit"),
+                            "corrupted_inputs": sum(1 for r in grows if r["ev"] == "GadgetCorrupt"),
+                            "corrupted_still_parsed": sum(1 for r in grows if r["ev"] == "GadgetCorrupt" and r.get("off_parses"))},
         "refusals": [{k: r[k] for k in ("what", "verdict", "then_verify")} for r in allrows if r["ev"] == "AggRefuse"],
         "evaluations": len(tam) + len(aggs),
         "distinct_nontrivial": len(set((t["kind"], t["how"]) for t in tam)) + len(aggs),
@@ -89,8 +122,8 @@ def run(tier):
         "samples": [{k: v for k, v in tam[0].items()}] if tam else [{"note": "no tamper events"}],
         "exhaustive": False,
     })
-    rep.assumptions += ["the foreign-curve verifier gadget (in-circuit accumulator vs off-circuit accumulator under MockProver) and the IVC example are "
-                        "not covered; the inner-product argument is a private module and is exercised only as a section of the aggregated proof",
+    rep.assumptions += ["the verifier gadget is exercised on one inner circuit shape (Poseidon, k = 10) with the repository's own verifier circuit; the IVC "
+                        "example is not covered; the inner-product argument is a private module and is exercised only as a section of the aggregated proof",
                         "aggregate_proofs refuses some invalid inner proofs by panicking (assertion) rather than returning Err: counted as a refusal",
                         "quick corrupts the first 12 and last 24 elements and every 6th element in between; thorough every element"]
     return rep.finish()
@@ -99,6 +132,17 @@ def run(tier):
 def replay(path):
     d = json.load(open(path))
     wd = vlib.workdir("C20")
+    if d["replay"].get("half") == "verifier_gadget":
+        sp = os.path.join(wd, "replay_gscen.ndjson")
+        vlib.write_ndjson(sp, [d["replay"]["scenario"]])
+        tp = os.path.join(wd, "replay_gtrace.ndjson")
+        vlib.run_vh(["c20g", sp, tp])
+        acc, line, _ = vlib.validate_trace(tp, "Agg_Trace.tla", "Agg_Trace.cfg", "C20")
+        if not acc:
+            log(f"VIOLATION property=C20 replay={path}")
+            return 1
+        log("replay: accepted (violation not reproduced)")
+        return 0
     sp = os.path.join(wd, "replay_scen.ndjson")
     vlib.write_ndjson(sp, [d["replay"]["scenario"]])
     tp = os.path.join(wd, "replay_trace.ndjson")
